@@ -88,12 +88,17 @@ func runC01(r *ev.Run) {
 					nonEmpty++
 				}
 				for _, o := range genVariants(rng, full, m, ids, 4+rng.IntN(3)) {
-					got, err := applyOpts(idx.NewSearch().WithQuery(cloneF32(q)), o).Execute()
+					b := applyOpts(idx.NewSearch().WithQuery(cloneF32(q)), o)
+					got, err := b.Execute()
 					if err != nil {
 						rep("flat.search-error", fmt.Sprintf("restricted search failed: %v", err))
 						continue
 					}
 					checkVariant(rep, "flat.variant", full, got, o)
+					if rng.IntN(4) == 0 {
+						checkReexecute(rep, "flat", b, got)
+						r.Count("probes:re-executed-search-object", 1)
+					}
 					r.Count("probes:restricted", 1)
 					if o.Threshold > 0 {
 						if _, ok := scoreSet(full)[o.Threshold]; ok {
@@ -160,6 +165,27 @@ func runC01(r *ev.Run) {
 				flushes++
 				r.Count("ops:flush", 1)
 			default:
+				if rng.IntN(3) == 0 {
+					// a rejected Add (wrong dimension; zero vector under cosine) changes nothing: the probes that follow
+					// compare with the unchanged model
+					bad := make([]float32, dim+1+rng.IntN(2))
+					for j := range bad {
+						bad[j] = 1
+					}
+					what := "wrong dimension"
+					if metric == comet.Cosine && rng.IntN(2) == 0 {
+						bad, what = make([]float32, dim), "zero vector under cosine"
+					}
+					id := ids.next()
+					hist = append(hist, histOp{Op: "rejected-add (" + what + ")", ID: id})
+					if err := idx.Add(*comet.NewVectorNodeWithID(id, bad)); err == nil {
+						rep("flat.invalid-add-accepted", fmt.Sprintf("Add accepted a vector with %s", what))
+						return
+					}
+					preRemoved = append(preRemoved, id) // the id stays perfectly fresh
+					r.Count("ops:rejected-add", 1)
+					break
+				}
 				// removing an unknown or already removed id must fail and change nothing
 				id := ids.next() // never added so far; may be added later (see preRemoved)
 				fresh := true
